@@ -40,7 +40,8 @@ pub const K_TIME_JUST_ABOVE_MEDIAN: u8 = 22;
 pub const K_TIME_AT_LIMIT: u8 = 23;
 pub const K_ANNOUNCED_BAD_BODY: u8 = 24;
 pub const K_ANNOUNCED_GOOD: u8 = 25;
-pub const ALL_ITEMS: [u8; 25] = [1, 21, 22, 23, 25, 24, 2, 3, 4, 5, 6, 7, 8, 9, 10, 11, 12, 13, 14, 15, 16, 17, 18, 19, 20];
+pub const K_CHILD_OF_ANNOUNCED: u8 = 26;
+pub const ALL_ITEMS: [u8; 26] = [1, 21, 22, 23, 25, 24, 26, 2, 3, 4, 5, 6, 7, 8, 9, 10, 11, 12, 13, 14, 15, 16, 17, 18, 19, 20];
 
 pub fn item_name(k: u8) -> &'static str {
     match k {
@@ -69,6 +70,7 @@ pub fn item_name(k: u8) -> &'static str {
         23 => "valid: timestamp = now + 2h exactly",
         24 => "announced header with another body (wrong merkle root)",
         25 => "valid: the block of an announced header",
+        26 => "valid block whose parent is an announced header (block not yet delivered unless an earlier item is it)",
         _ => "?",
     }
 }
@@ -268,6 +270,14 @@ fn build_item(w: &World, k: u8, pos: usize, prev: Option<&bitcoin::Block>, resp_
             } else {
                 bad(bitcoin::Block { header: b.header, txdata: vec![simple_cb(w, salt)] })
             }
+        }
+        K_CHILD_OF_ANNOUNCED => {
+            // delivered out of order: its parent is known only as an announced header (admissible
+            // only if an earlier item of the same reply delivered that parent)
+            let a = w.announced.iter().find(|a| {
+                a.block.is_some() && !w.refm.has(&a.hash) && tree.contains(&a.prev)
+            })?;
+            ok(good(&a.header))
         }
         K_TIME_FUTURE => {
             let p = hdr_of(&tip)?;
@@ -929,7 +939,7 @@ pub fn run(tier: &str) -> i32 {
     // channel equivalence: the direct channel used by the other properties and the
     // heartbeat channel give the same state
     channel_equivalence(&mut rep, if quick { 3 } else { 4 });
-    rep.rule = "in every state of the TREE profile (equal difficulty) every get_successors reply of <= k items over the item alphabet (valid children of tip / fork / anchor / previous item, duplicates, the anchor, child of a stabilised block, orphan, empty / truncated / trailing bytes, bad proof of work, bad timestamps, wrong bits, no transactions, non-coinbase first, wrong merkle root, duplicated transaction) and every announced-header list of <= h entries is fed through the real heartbeat (candid-typed reply); admitted = longest admissible prefix, exactly one error counter +1, state equal to the state after the prefix-only reply".into();
+    rep.rule = "in every state of the TREE profile (equal difficulty) every get_successors reply of <= k items over the item alphabet (valid children of tip / fork / anchor / previous item, the block of an announced header, a block whose parent is only an announced header, duplicates, the anchor, child of a stabilised block, orphan, empty / truncated / trailing bytes, bad proof of work, bad timestamps, wrong bits, no transactions, non-coinbase first, wrong merkle root, duplicated transaction) and every announced-header list of <= h entries is fed through the real heartbeat (candid-typed reply); admitted = longest admissible prefix, exactly one error counter +1, state equal to the state after the prefix-only reply".into();
     rep.bounds = json!({"tier": tier});
     rep.assume("regtest (mined) blocks only: mainnet/testnet proof of work is not computable; header rules on those networks are C11's");
     rep.assume("bytes that the lenient decoder accepts with trailing data are counted as undecided");
